@@ -9,6 +9,7 @@ package harness
 import (
 	"encoding/json"
 	"fmt"
+	"github.com/ovn-org/libovsdb/simrt"
 	"math"
 	"sort"
 	"strings"
@@ -449,6 +450,7 @@ func (x *refTxn) dupIndex() bool {
 // server reported for insert operation i (used when the insert carries no
 // explicit uuid).
 func RefTransact(sch *Schema, before DBState, ops []Op, reported map[int]string) *RefOutcome {
+	simrt.Heartbeat.Add(1) // analysis is progress too (watchdog food)
 	out := &RefOutcome{Names: map[string]string{}}
 	x := &refTxn{sch: sch, st: before.Clone(), names: out.Names, out: out}
 	for _, tn := range sch.TableNames {
